@@ -64,6 +64,42 @@ def run(res):
         rng.shuffle(order)
         cases.append((adj, order))
 
+    # scale: long chains / rings / combs (an explicit-stack DFS must not care about depth)
+    for n in ((1200, 2500) if quick else (1200, 2500, 6000)):
+        cases.append(([[i + 1] if i + 1 < n else [] for i in range(n)], list(range(n))))            # path
+        cases.append(([[(i + 1) % n] for i in range(n)], list(range(n))))                            # ring
+        cases.append(([[i + 1, i] if i % 3 == 0 and i + 1 < n else ([i + 1] if i + 1 < n else [0]) for i in range(n)],
+                      list(reversed(range(n)))))                                                      # ring with self-loops
+    # odd node names: the same graphs with nodes renamed to None, tuples, strings, negative ints, floats, frozensets
+    ODD = [None, (), (0, 1), 'x', '', -1, -2, 2.5, frozenset([1]), ('t', None), 'None', 0, True]
+    named = []
+    for _ in range(400 if quick else 4000):
+        adj = random_digraph(rng, 7)
+        n = len(adj)
+        names = rng.sample(ODD[:-2], n) if rng.random() < 0.8 else rng.sample(ODD[2:], n)
+        if len(set(map(repr, names))) == n and len(set(names)) == n:
+            order = list(range(n))
+            rng.shuffle(order)
+            named.append((adj, order, names))
+    for adj, order, names in named:
+        n = len(adj)
+        G = impl_graph(adj, order, names=names)
+        try:
+            out = [list(c) for c in compute_SCCs(G)]
+        except Exception as e:
+            res.violation('compute_SCCs raised %s on a graph whose nodes are %r' % (type(e).__name__, names),
+                          {'adjacency': adj, 'order': order, 'names': [repr(x) for x in names]})
+            continue
+        inv = {}
+        for i, nm in enumerate(names):
+            inv[nm] = i
+        got = set(frozenset(inv[v] for v in c) for c in out)
+        truth = mutual_classes([(v, adj[v]) for v in range(n)])
+        flat = sorted(inv[v] for c in out for v in c)
+        if got != truth or flat != list(range(n)):
+            res.violation('compute_SCCs is wrong on a graph with nodes %r' % (names,),
+                          {'adjacency': adj, 'order': order, 'names': [repr(x) for x in names],
+                           'impl': sorted(map(sorted, got)), 'expected': sorted(map(sorted, truth))})
     lines, impl = [], []
     for adj, order in cases:
         G = impl_graph(adj, order)
@@ -81,7 +117,7 @@ def run(res):
         n = len(adj)
         sizes[n] = sizes.get(n, 0) + 1
         flat = [v for c in out for v in c]
-        truth = mutual_classes(obs)
+        truth = mutual_classes(obs) if n <= 12 else set(frozenset(c) for c in mcomps)
         impl_set = set(frozenset(c) for c in out)
         model_set = set(frozenset(c) for c in mcomps)
         if sorted(flat) != sorted(range(n)) or impl_set != truth:
@@ -96,7 +132,7 @@ def run(res):
             continue
         if out == mcomps:
             ordered_same += 1
-        if len(out) < n and len(out) > 1:
+        if n <= 12 and len(out) < n and len(out) > 1:
             nontrivial.add((tuple(map(tuple, adj))))
     problems = proof_coverage(res, THEOREMS, MODULES)
     for p in problems:
@@ -110,7 +146,7 @@ def run(res):
         'exhaustive': True,
         'exhaustive_scope': 'n <= %d' % exhaustive_n,
         'sizes_histogram': sizes,
-        'ordered_agreement': ordered_same,
+        'ordered_agreement': ordered_same, 'odd_named_graphs': len(named),
         'samples': [{'adjacency_in_iteration_order': impl[i][0], 'impl': impl[i][1], 'model': model[i]}
                     for i in (0, len(cases) // 2, len(cases) - 1)],
         'traces_validated_against_impl': len(cases),
